@@ -34,8 +34,9 @@ PROPS = {
     "C14": {
         "coq": ["Props/C14.v"],
         "level": "proof",
-        "harness": ["purediff"],
-        "stages": [("pure", stage_pure, {"suites": ["valid_rid", "dispatch", "httppath"], "n_quick": 8000, "n_thorough": 200000})],
+        "harness": ["purediff", "gwrun"],
+        "stages": [("pure", stage_pure, {"suites": ["valid_rid", "dispatch", "httppath"], "n_quick": 8000, "n_thorough": 200000}),
+                   ("subjects", stage_pure, {"suites": ["subjects"], "n_quick": 600, "n_thorough": 6000})],
         "rule": "all 256 bytes in 4 positions for IsValidRID/IsValidRIDPart; dotted strings over a token alphabet with control bytes, "
                 "wildcards, invalid UTF-8, {cid}, queries, byte mutations; WebSocket method strings through the real rpc.HandleRequest with "
                 "a recording requester; HTTP paths with percent-escapes of every byte under 4 apiPath prefixes; non-trivial = accepted input",
@@ -188,6 +189,7 @@ PROPS = {
         "level": "proof",
         "harness": ["gwrun", "purediff"],
         "stages": [("pure", stage_pure, {"suites": ["expand_cid"], "n_quick": 3000, "n_thorough": 50000}),
+                   ("subjects", stage_pure, {"suites": ["subjects"], "n_quick": 600, "n_thorough": 6000}),
                    ("gw", stage_gw, {"profiles": [("access", 500, 4000), ("scacc", 500, 4000), ("churn", 250, 2000), ("accrefs", 250, 2000)]})],
         "rule": "multi-connection histories with distinct tokens; monitor: no frame to a client contains any connection id, every service request made by "
                 "connection c's worker carries c's id and a token of c in effect since the last quiescent point; differential of the {cid} expansion",
